@@ -330,12 +330,12 @@ PROPS = {
     },
     "C18": {
         "module": "Shutter.Properties.C18",
-        "theorems": ["C18_blocked", "C18_tables_wellformed", "C18_write_ops_pinned", "C18_setup_pinned", "C18_embedded_is_yaml", "C18_blocked_now",
+        "theorems": ["C18_blocked", "C18_tables_wellformed", "C18_write_ops_pinned", "C18_setup_pinned", "C18_gate_stateless", "C18_embedded_is_yaml", "C18_blocked_now",
                      "C18_readonly_reachable", "C18_deterministic"],
         "driver": {"pkg": "./cmd/apicheck"},
         "facts": ["api"],
         "trusted_base": [KERNEL, CORR,
-                         "factx (OpenAPI operations, generated chi routes and router set-up order extracted from the source on every run)",
+                         "factx (OpenAPI operations, generated chi routes, router set-up order and the names the gate reaches, extracted from the source on every run)",
                          "modelled, not verified: chi pattern matching and Mount/StripPrefix, kin-openapi Paths.Find/normalizeTemplatedPath, Go "
                          "regexp semantics of the template expression, net/url percent-decoding (abstract `unescape` with the law "
                          "'no % means unchanged'), the OapiRequestValidator middleware (it can only reject more)"],
@@ -343,7 +343,8 @@ PROPS = {
                        "request to the handler of an operation not marked read-only, the gate (write operations disabled) does not allow it, "
                        "for every method, every path spelling, raw or percent-decoded, and every map order; the predicate holds for the tables "
                        "regenerated from oapi.yaml and the generated server on this run (decide); the state-changing operations and the "
-                       "middleware order are pinned; determinism for brace-free paths; read-only operations reachable. The real router is "
+                       "middleware order are pinned, and so is what the gate's code can reach besides the request (no state of its own, "
+                       "regenerated from the source with go/types); determinism for brace-free paths; read-only operations reachable. The real router is "
                        "driven through httptest over all methods x mutated path spellings x both modes and compared with the model.",
         "assumptions": ["template parameters are whole path segments (checked: cleanTemplate)",
                         "the request validator in front of the gate only ever rejects"],
